@@ -44,7 +44,12 @@ func (r *recorder) CheckPermission(q *auth.PermissionCheckRequest) *auth.Permiss
 	r.mu.Lock()
 	r.asked = append(r.asked, strings.ToLower(q.Database)+"."+strings.ToLower(q.Measurement))
 	r.mu.Unlock()
-	if q.Database == "allowed" && q.Permission == "read" {
+	// token 7 = the restricted caller (database `allowed` only); token 8 = the owner of database `default`
+	own := "allowed"
+	if q.TokenInfo != nil && q.TokenInfo.ID == 8 {
+		own = "default"
+	}
+	if q.Database == own && q.Permission == "read" {
 		return &auth.PermissionCheckResult{Allowed: true, Source: "rbac"}
 	}
 	return &auth.PermissionCheckResult{Allowed: false, Source: "denied", Reason: "verif: only database allowed"}
@@ -160,6 +165,10 @@ func runQuery(in *input, res *result) {
 		res.Infra = "plant allowed: " + err.Error()
 		return
 	}
+	if err := mk("default", canaryForeign, 3); err != nil { // another tenant's database, same measurement name
+		res.Infra = "plant default: " + err.Error()
+		return
+	}
 	if err := mk("foreign", canaryForeign, 2); err != nil {
 		res.Infra = "plant foreign: " + err.Error()
 		return
@@ -183,17 +192,25 @@ func runQuery(in *input, res *result) {
 	h.SetAuthAndRBAC(nil, rec)
 	app := fiber.New(fiber.Config{DisableStartupMessage: true})
 	app.Use(func(c *fiber.Ctx) error {
-		c.Locals("token_info", &auth.TokenInfo{ID: 7, Name: "verif-reader", Permissions: []string{"read"}, Enabled: true})
+		id := int64(7)
+		if c.Get("x-verif-token") == "8" {
+			id = 8
+		}
+		c.Locals("token_info", &auth.TokenInfo{ID: id, Name: "verif-reader", Permissions: []string{"read"}, Enabled: true})
 		return c.Next()
 	})
 	h.RegisterRoutes(app)
 
+	asToken := ""
 	post := func(text, hdr string) (int, string, error) {
 		body, _ := json.Marshal(map[string]string{"sql": text})
 		req := httptest.NewRequest("POST", "/api/v1/query", bytes.NewReader(body))
 		req.Header.Set("Content-Type", "application/json")
 		if hdr != "" {
 			req.Header.Set("x-arc-database", hdr)
+		}
+		if asToken != "" {
+			req.Header.Set("x-verif-token", asToken)
 		}
 		resp, err := app.Test(req, 60000)
 		if err != nil {
@@ -248,8 +265,18 @@ func runQuery(in *input, res *result) {
 		if cls == "none" && tr.LabV != "none" {
 			cls = "validate:" + tr.LabV
 		}
-		for _, hdr := range []string{"", "allowed", "foreign"} {
+		for _, mode := range []string{"", "allowed", "foreign", "seq"} {
 			res.Evaluations++
+			hdr := mode
+			if mode == "seq" {
+				// two-request sequence on the same handler: the owner of `default` runs the text without a header,
+				// then the restricted caller runs the SAME text with x-arc-database: allowed; the second is judged
+				asToken = "8"
+				post(text, "")
+				rec.take()
+				asToken = ""
+				hdr = "allowed"
+			}
 			st, body, err := post(text, hdr)
 			asked := rec.take()
 			if err != nil {
@@ -326,6 +353,11 @@ func runQuery(in *input, res *result) {
 			sig := "disguise:" + cls
 			if cls == "none" || !hidden {
 				sig = "disguise-unmodelled:" + cls + "/" + via
+			}
+			if mode == "seq" && strings.HasPrefix(sig, "disguise-unmodelled:") {
+				// (a modelled disguise works in any request order: same signature as in a single request)
+				sig += "/after-owner-request"
+				w.Symbols += " [second request of a sequence: first posted by the owner of `default` without header]"
 			}
 			w.Via, w.SubClass = via, tr.LabI
 			res.Counts[kind]++
